@@ -5,7 +5,7 @@ from typing import Optional, TYPE_CHECKING
 
 import wn
 from wn.constants import ADJ, ADJ_SAT
-from wn._util import flatten
+from wn._util import flatten, unique_list
 from wn import _core
 
 if TYPE_CHECKING:
@@ -219,7 +219,10 @@ def _shortest_hyp_paths(
 
     from_self = _hypernym_paths(synset, simulate_root, True)
     from_other = _hypernym_paths(other, simulate_root, True)
-    common = set(flatten(from_self)).intersection(flatten(from_other))
+    # keep the common hypernyms in path order (not in a set) so that
+    # results do not depend on the iteration order of hashed objects
+    other_hypernyms = set(flatten(from_other))
+    common = [ss for ss in unique_list(flatten(from_self)) if ss in other_hypernyms]
 
     if not common:
         return {}
@@ -233,7 +236,7 @@ def _shortest_hyp_paths(
     for which, paths in (0, from_self), (1, from_other):
         for path in paths:
             for dist, ss in enumerate(path):
-                if ss in common:
+                if ss in subpaths:
                     # synset or other subpath to ss (not including ss)
                     subpaths[ss][which].append(path[:dist + 1])
                     # keep maximum depth
